@@ -904,8 +904,16 @@ def run_c09(ctx, rng, job):
             w.register(ri, rq(k), k[1], k[2], w.newval())
         elif op == 'same':
             k = rng.choice(cur_keys)
-            g0 = w.regs[ri]._generation
+            g0 = getattr(w.regs[ri], '_generation', None)
             w.register(ri, rq(k), k[1], k[2], w.adapters[ri][k])
+            # re-registering the very object is a no-op: nothing changes, nobody is told (read from the change counter
+            # that verifying registries go by; not judged if a registry has none)
+            g1 = getattr(w.regs[ri], '_generation', None)
+            if isinstance(g0, int) and isinstance(g1, int):
+                ctx.ev()
+                ctx.count('identical_reregistrations')
+                if g1 != g0:
+                    ctx.violation('identical-registration-not-a-noop', {'registry': ri, 'generation_before': g0, 'generation_after': g1})
         elif op == 'unreg':
             k = rng.choice(cur_keys)
             sib = any(o is not k and o[0] == k[0] for o in cur_keys)
@@ -922,7 +930,18 @@ def run_c09(ctx, rng, job):
             w.unregister(ri, k[0], k[1], k[2], Val(w.adapters[ri][k].k, -1))   # equal, not identical: no-op
         elif op == 'unregother':
             k = rng.choice(cur_keys)
-            w.unregister(ri, k[0], k[1], k[2], w.newval())
+            if rng.random() < 0.5:
+                w.unregister(ri, k[0], k[1], k[2], w.newval())
+            else:
+                # a name (or a provided interface) nothing is registered under, next to an existing entry: nothing to remove
+                absent = [n_ for n_ in ('', 'a', 'b', 'zz') if (k[0], k[1], n_) not in w.adapters[ri]]
+                if absent and rng.random() < 0.6:
+                    w.unregister(ri, rq(k), k[1], rng.choice(absent))
+                else:
+                    others = [p_ for p_ in w.P if (k[0], p_, k[2]) not in w.adapters[ri]]
+                    if others:
+                        w.unregister(ri, rq(k), rng.choice(others), k[2])
+                ctx.count('unregistrations_of_an_absent_entry_next_to_an_existing_one')
         elif op in ('sub', 'subdup') or (op in ('unsub', 'unsubv') and not w.subs[ri]):
             req, prov, _ = w.rand_key(ar=rng.choice([0, 1, 1, 2]))
             prov = rng.choice(w.P + [None])
@@ -1395,8 +1414,26 @@ def run_c06(ctx, rng, job):
             ro_attr = getattr(reg, 'ro', None)
             if w.flavour == 'verifying':
                 # verifying registries get no notifications: their ``ro`` is
-                # brought up to date by the generation check of the next lookup
-                reg.lookup((), Interface, '')
+                # brought up to date by the generation check of the next lookup - whichever entry point that is
+                first = rng.choice(['lookup', 'lookupAll', 'subscriptions'])
+                ctx.count('first_call_after_a_change[%s]' % first)
+                if first == 'lookup':
+                    reg.lookup((), Interface, '')
+                else:
+                    freq, fprov, _fn = w.rand_query(ar=rng.choice([0, 1, 1, 2]))
+                    rr_ = rng.randrange(n)
+                    if w.adapters[rr_]:
+                        (freq, fprov, _fn) = rng.choice(list(w.adapters[rr_]))
+                    if first == 'lookupAll':
+                        fla = dict(reg.lookupAll(freq, fprov))
+                        ctx.ev()
+                        if set(fla) != w.m_names(ri, freq, fprov, chain):
+                            ctx.violation('chain-lookupAll-wrong', {'registry': ri, 'got': sorted(fla), 'expected': sorted(w.m_names(ri, freq, fprov, chain)),
+                                                                    'chain': chain, 'after': tag, 'first_call_after_the_change': True})
+                    else:
+                        fse = w.m_subscriptions(ri, freq, fprov, chain)
+                        w.check_subscriptions(reg.subscriptions(freq, fprov), fse, {'registry': ri, 'required': nm(freq), 'provided': nm(fprov),
+                                                                                   'chain': chain, 'after': tag, 'first_call_after_the_change': True})
                 ro_attr = getattr(reg, 'ro', None)
             if ro_attr is not None:
                 got = [w.index_of(r) for r in ro_attr]
@@ -1444,6 +1481,13 @@ def run_c06(ctx, rng, job):
                 ctx.ev()
                 if set(la) != names:
                     ctx.violation('chain-lookupAll-wrong', {'registry': ri, 'got': sorted(la), 'expected': sorted(names), 'chain': chain, 'after': tag})
+                # ... and under every name the value of the nearest registry that has one
+                for n_, v_ in la.items():
+                    e_, _i = w.m_lookup(ri, lreq, lprov, n_, chain)
+                    ctx.ev()
+                    if not any(v_ is x for x in e_):
+                        ctx.violation('chain-lookupAll-wrong', {'registry': ri, 'name': n_, 'got': repr(v_), 'expected_one_of': repr(e_),
+                                                                'chain': chain, 'after': tag})
                 sprov = rng.choice([lprov, None])
                 se = w.m_subscriptions(ri, lreq, sprov, chain)
                 sg = reg.subscriptions(lreq, sprov)
